@@ -84,6 +84,14 @@ func main() {
 				fmt.Printf("no-contract  %4d instrs  %s\n", n, fn.String())
 			case !bound[fc.Pkg+"::"+fc.Name]:
 				fmt.Printf("unbound      %4d instrs  %s\n", n, fn.String())
+			default:
+				clauses := len(fc.Ensures) + len(fc.CallAsserts)
+				for _, ls := range fc.Loops {
+					clauses += len(ls.Invariants) + len(ls.Steps)
+				}
+				if clauses == 0 {
+					fmt.Printf("frame-only   %4d instrs  %s\n", n, fn.String())
+				}
 			}
 		}
 	case "check":
